@@ -20,7 +20,7 @@ TEXT = {
             "Every reported match of generated programs (widest generator, a third capture-biased; a scale part with kB texts, a third of them searched as files) is re-derived from the input text alone: slice, order, numbering, line/column, variables are substrings.",
             "ASCII texts for the column claim; trusts only the text-derived recomputation"),
     "C04": ("metamorphic property-based testing (window of one sequence)",
-            "For generated (body, text): every amount clause with s,t,n straddling len(A), amounts up to 2^63-1, zero-padded amounts, and (scale part) hundreds of matches with amounts up to 300 are compared field by field with the corresponding slice of `find all`; replace forms carry a transform that reads matchNumber.",
+            "For generated (body, text): every amount clause with s,t,n straddling len(A), amounts up to 2^63-1, zero-padded amounts, and (scale part) hundreds of matches with amounts up to 300 are compared field by field with the corresponding slice of `find all`; replace forms carry a transform that reads matchNumber; an enumeration with 513..2600 matches and amounts around 512, 1024, 2048.",
             "`find all` itself is decided by C01; this check only relates clauses to it"),
     "C05": ("model-based property-based testing of replacements",
             "Expected replacement recomputed from the reported match with the harness's own process evaluator; replace vs find differential.",
@@ -38,19 +38,19 @@ TEXT = {
             "Accepted programs from the widest generator (up to three commands sharing bodies and definitions) and accepted mutants are run on texts, all prefixes, the empty text and files, and find programs over file names (processFilenames); any panic is a violation.",
             "zero divisors (K1) and branch-typed variables (K2) are excluded by construction and probed"),
     "C10": ("bounded exhaustive enumeration + random deepening with a step-count oracle",
-            "All programs of a nullable-material grammar (18 atoms, 13 loop heads incl. bounds of 2e9 and 2^63-1, guarded recursion over 22 consuming instructions, two-command programs) to nesting depth 2 plus a sample of depth 3 (thorough: depth 4 complete) on all texts of length <= 3 over {a,b,\\n}; random deeper programs; process code with bounded loops; linear programs on files of 4..12 kB (RunFiles): Run stays under an instruction budget orders of magnitude above the observed maximum, and no loop activation / call nesting outgrows the text (progress measures).",
+            "All programs of a nullable-material grammar (18 atoms, 13 loop heads incl. bounds of 2e9 and 2^63-1, guarded recursion over 22 consuming instructions, two-command programs) to nesting depth 2 plus a sample of depth 3 (thorough: depth 4 complete) on all texts of length <= 3 over {a,b,\\n}; random deeper programs; process code with bounded loops; linear programs on files of 4..12 kB (RunFiles); 20 programs on texts with CR-only / mixed line ends, NUL, BOM, multi-byte and non-UTF-8 bytes: Run stays under an instruction budget orders of magnitude above the observed maximum, and no loop activation / call nesting outgrows the text (progress measures).",
             "uses the verif hook (step counter, progress measures); budget 1e6 instructions in the enumeration (observed maximum 1 568); in the random part only the progress measures decide"),
     "C11": ("exhaustive operator table + type-directed expression generation against a reference evaluator",
-            "Every operator x boundary operand pair (incl. numeric strings beyond 32 bits, non-ASCII strings), and random expression trees rendered with full and minimal parentheses, observed through transforms (called twice per match) and predicates.",
+            "Every operator x boundary operand pair (incl. numeric strings beyond 32 bits, numerals with white space or a sign around them, non-ASCII strings), and random expression trees rendered with full and minimal parentheses, observed through transforms (called twice per match) and predicates.",
             "trusts the harness evaluator written from LanguageDetails.md"),
     "C12": ("exhaustive typing table + generated statement lists against a reference type checker",
-            "Accept/reject verdict of Compile compared with the documented typing rules; accepted code is run (two transforms per match in the shared-name cases) and must not reach an undefined operation; the same verdict from CompileFile behind a 4200-byte comment.",
+            "Accept/reject verdict of Compile compared with the documented typing rules (operands also as 20-digit number literals); accepted code is run (two transforms per match in the shared-name cases) and must not reach an undefined operation; the same verdict from CompileFile behind a 4200-byte comment.",
             "the cell bool (- * / %) number is left open"),
     "C13": ("metamorphic property-based testing + stateful compile/run histories",
             "Inline, subroutine and set-pattern renderings of the same body (also inside counted loops, in find and replace commands) give identical matches; multi-command sources equal the concatenation, also over several files in one RunFiles call; a definition with a predicate referenced through further patterns; repeated Compile/Run calls, with rejected compiles in between, are stable; a call that never returns when its history is replayed alone is a violation.",
             "capture-free bodies"),
     "C14": ("differential property-based testing against Go regexp and the reference matcher",
-            "Generated regex ASTs of the stated subset (a quarter after a rejected compile, some with a same-named definition), regexes of 9..20 groups with every back-reference, and an enumeration of counted quantifiers up to {64} on runs around the bounds: spans and group bindings vs Go's regexp position by position and vs the reference matcher on the translated IR.",
+            "Generated regex ASTs of the stated subset (a quarter after a rejected compile, some with a same-named definition), regexes of 9..20 groups with every back-reference, and an enumeration of counted quantifiers up to {64} on runs around the bounds: on texts that also hold NUL bytes and, with back-references, multi-byte characters; spans and group bindings vs Go's regexp position by position and vs the reference matcher on the translated IR.",
             "non-nullable loop bodies; texts without \\r \\f \\v; K4/K5 excluded by construction"),
     "C15": ("metamorphic testing over token layouts (exhaustive per gap + random)",
             "Every gap x separator kind (11 kinds incl. CR LF, form feed, comments of both forms) for corpus and generated programs, separators of 4..64 kB and programs shifted across the lexer's buffer boundary, keyword re-casing: same acceptance, DeepEqual AST, same results, also compiled from a file (CompileFile) and through the command-line tool (-com / -src, with and without -debug).",
@@ -68,7 +68,7 @@ TEXT = {
             "Generated goroutine job sets of Compile/Run calls, repeated under -race with GOMAXPROCS in {2,16}, the concurrent repetitions before the sequential reference and in fresh processes; results equal sequential results and no race is reported.",
             "schedules are the Go scheduler's; built without the verif tag"),
     "C20": ("bounded exhaustive enumeration + generated trees against a reference glob",
-            "All patterns up to length 5 over {a,b,.,*} x all names up to length 4, generated trees (symbolic links, patterns through links to directories, names with [ ] ? and backslash), and directories of 1..4097 entries, against a 10-line recursive glob.",
+            "All patterns up to length 5 over {a,b,.,*} x all names up to length 4, generated trees (symbolic links, patterns through links to directories, names with [ ] ? and backslash, non-ASCII names), and directories of 1..4097 entries, against a 10-line recursive glob.",
             "excludes star-only directory segments and ./.. as the property does"),
 }
 
